@@ -57,6 +57,8 @@ type Prim interface {
 	AliasProbe(c, t, kind string, item, item2 Item) *Resp
 	Native(c string) *interpreter.Native
 	ActivateNative(c string)
+	// SetNative installs another native interpreter instance with SetInterpreter.
+	SetNative(c string, n *interpreter.Native)
 }
 
 // ClientIDs are the client instances every back end keeps.
